@@ -2,7 +2,7 @@
 //! results are turned into locations by pointer identity.
 
 use crate::ast::*;
-use crate::engine::guarded;
+use crate::engine::{guarded, in_flight};
 use crate::json::*;
 use jsonpath_rust::parser::model as m;
 use jsonpath_rust::parser::parse_json_path;
@@ -45,7 +45,7 @@ fn conv(v: &Value, map: &HashMap<usize, Loc>, r: Vec<jsonpath_rust::query::Query
 }
 
 pub fn query_with_path(v: &Value, map: &HashMap<usize, Loc>, q: &str) -> LibRes {
-    match guarded(|| v.query_with_path(q)) {
+    match in_flight(q, v, || guarded(|| v.query_with_path(q))) {
         Ok(Ok(r)) => Ok(conv(v, map, r)),
         Ok(Err(e)) => Err(LibErr::Err(e.to_string())),
         Err(p) => Err(LibErr::Panic(p)),
@@ -53,7 +53,7 @@ pub fn query_with_path(v: &Value, map: &HashMap<usize, Loc>, q: &str) -> LibRes 
 }
 
 pub fn query_vals(v: &Value, map: &HashMap<usize, Loc>, q: &str) -> Result<Vec<Option<Loc>>, LibErr> {
-    match guarded(|| v.query(q)) {
+    match in_flight(q, v, || guarded(|| v.query(q))) {
         Ok(Ok(r)) => Ok(r
             .into_iter()
             .map(|x| map.get(&(x as *const Value as usize)).cloned())
@@ -64,7 +64,7 @@ pub fn query_vals(v: &Value, map: &HashMap<usize, Loc>, q: &str) -> Result<Vec<O
 }
 
 pub fn query_paths(v: &Value, q: &str) -> Result<Vec<String>, LibErr> {
-    match guarded(|| v.query_only_path(q)) {
+    match in_flight(q, v, || guarded(|| v.query_only_path(q))) {
         Ok(Ok(r)) => Ok(r),
         Ok(Err(e)) => Err(LibErr::Err(e.to_string())),
         Err(p) => Err(LibErr::Panic(p)),
@@ -72,7 +72,7 @@ pub fn query_paths(v: &Value, q: &str) -> Result<Vec<String>, LibErr> {
 }
 
 pub fn process(v: &Value, map: &HashMap<usize, Loc>, q: &m::JpQuery) -> LibRes {
-    match guarded(|| js_path_process(q, v)) {
+    match in_flight(&q.to_string(), v, || guarded(|| js_path_process(q, v))) {
         Ok(Ok(r)) => Ok(conv(v, map, r)),
         Ok(Err(e)) => Err(LibErr::Err(e.to_string())),
         Err(p) => Err(LibErr::Panic(p)),
@@ -80,7 +80,7 @@ pub fn process(v: &Value, map: &HashMap<usize, Loc>, q: &m::JpQuery) -> LibRes {
 }
 
 pub fn parse(q: &str) -> Result<m::JpQuery, LibErr> {
-    match guarded(|| parse_json_path(q)) {
+    match in_flight(q, &Value::Null, || guarded(|| parse_json_path(q))) {
         Ok(Ok(r)) => Ok(r),
         Ok(Err(e)) => Err(LibErr::Err(e.to_string())),
         Err(p) => Err(LibErr::Panic(p)),
